@@ -397,13 +397,18 @@ type tierSpec struct {
 }
 
 func tierOf(name string) tierSpec {
-	if name == "thorough" {
-		return tierSpec{Wall: 20 * time.Minute, Workers: 16, PerJob: 40, Scale: 2, Shrink: 5 * time.Minute}
-	}
 	ts := tierSpec{Wall: 75 * time.Second, Workers: 16, PerJob: 12, Scale: 1, Shrink: 90 * time.Second}
+	if name == "thorough" {
+		ts = tierSpec{Wall: 12 * time.Minute, Workers: 16, PerJob: 40, Scale: 2, Shrink: 5 * time.Minute}
+	}
 	if s := os.Getenv("VERIF_WALL_S"); s != "" {
 		if v, err := strconv.Atoi(s); err == nil {
 			ts.Wall = time.Duration(v) * time.Second
+		}
+	}
+	if s := os.Getenv("VERIF_WORKERS"); s != "" {
+		if v, err := strconv.Atoi(s); err == nil && v > 0 {
+			ts.Workers = v
 		}
 	}
 	return ts
